@@ -113,6 +113,50 @@ pub fn c10(a: &Args) -> Report {
             specs.push(s);
         }
     }
+    // EVERY byte value / every ASCII character, alone and next to a letter on either side (an escape
+    // that turns a character into an assertion - `\<`, `\>`, `\b` - needs a word character beside it
+    // to show), as token / regex / skip, with and without ignore(case), byte-string and str literals
+    for b in 0..=255u8 {
+        for w in [vec![b], vec![b'e', b'n', b'd', b], vec![b, b'K'], vec![b'a', b, b'z']] {
+            let mk = |kind: Kind, lit: &[u8], ic: bool| {
+                let mut p = Pat::new(kind, Lit::Bytes(lit.to_vec()));
+                p.icase = ic;
+                let mut pats = vec![p];
+                if kind == Kind::Skip {
+                    pats.push(Pat::btoken(b"zz"));
+                } else if lit.len() > 1 {
+                    // a shorter token with the same head: what the literal's tail means decides who wins
+                    pats.push(Pat::btoken(b"end").prio(1));
+                }
+                Spec::new(false, pats)
+            };
+            push_pair(&mut specs, mk(Kind::Token, &w, false), mk(Kind::Token, &w, true));
+            if w.len() <= 2 {
+                let e = escape_bytes(&w);
+                push_pair(&mut specs, mk(Kind::Regex, &e, false), mk(Kind::Regex, &e, true));
+                push_pair(&mut specs, mk(Kind::Skip, &e, false), mk(Kind::Skip, &e, true));
+            }
+            if b < 0x80 {
+                let ws = String::from_utf8(w.clone()).unwrap();
+                let mks = |kind: Kind, lit: &str, ic: bool| {
+                    let mut p = Pat::new(kind, Lit::Str(lit.to_string()));
+                    p.icase = ic;
+                    let mut pats = vec![p];
+                    if kind == Kind::Skip {
+                        pats.push(Pat::token("zz"));
+                    } else if lit.len() > 1 {
+                        pats.push(Pat::token("end").prio(1));
+                    }
+                    Spec::new(true, pats)
+                };
+                push_pair(&mut specs, mks(Kind::Token, &ws, false), mks(Kind::Token, &ws, true));
+                if w.len() <= 2 {
+                    let e = escape_str(&ws);
+                    push_pair(&mut specs, mks(Kind::Skip, &e, false), mks(Kind::Skip, &e, true));
+                }
+            }
+        }
+    }
     // single-character literals over the whole alphabet: EVERY character that simple case folding
     // relates to another one (about 2 800), plus a stride through all scalar values (thorough: every
     // 16th, quick: every 2048th) - as #[token], with and without ignore(case), and next to an ASCII letter
